@@ -180,7 +180,7 @@ func (dlv *Delivery) ValidateWithContext(ctx context.Context) error {
 	return tax.ValidateStructWithContext(ctx, dlv,
 		validation.Field(&dlv.Regime),
 		validation.Field(&dlv.Addons),
-		validation.Field(&dlv.Tags),
+		validation.Field(&dlv.Tags.List, tax.TagsIn(supportedTagsFor(dlv.RegimeDef(), dlv.AddonDefs(), ShortSchemaDelivery)...)),
 		validation.Field(&dlv.UUID),
 		validation.Field(&dlv.Type,
 			validation.Required,
